@@ -358,6 +358,10 @@ fn deep_cuts(label: &str, doc: &Doc, thorough: bool) -> Vec<Tree> {
     } else {
         vec![("flat", ["", "", ""], true, '/'), ("down", ["l1/", "l2/", "l3/"], false, '/')]
     };
+    // directory names that begin with t, n, r behind a backslash separator (they look like escape sequences in a quoted name)
+    let mut variants = variants;
+    variants.push(("backslash-t-n-r-quoted", ["a/tab/", "b/new/", "c/rec/"], true, '\\'));
+    variants.push(("backslash-t-n-r-bare", ["a/tab/", "b/new/", "c/rec/"], false, '\\'));
     for pp in &ps {
         let n = doc.root.at(pp).children.len();
         if n > 5 {
@@ -449,6 +453,36 @@ fn plan_str(p: &Plan) -> String {
     } else {
         format!("{}..{}[{}]", p.run.0, p.run.1, p.kids.iter().map(plan_str).collect::<Vec<_>>().join(","))
     }
+}
+
+
+/// one include file used by several directives of one load (a shared snippet), and "diamonds" (two include files using a third)
+fn shared_include_trees() -> Vec<Tree> {
+    let head = "ASAP2_VERSION 1 71\n/begin PROJECT p \"\"\n  /begin MODULE m \"\"\n";
+    let tail = "  /end MODULE\n/end PROJECT\n";
+    let meas = |n: &str, inner: &str| format!("    /begin MEASUREMENT {n} \"\" UBYTE NO_COMPU_METHOD 0 0 0 255\n{inner}    /end MEASUREMENT\n");
+    let snippet = "      ECU_ADDRESS 0x10\n      FORMAT \"%5.2\"\n";
+    let mut out = Vec::new();
+    for (dir, quoted) in [("", true), ("inc/", false)] {
+        let d = |n: &str| inc_directive(&format!("{dir}{n}"), quoted);
+        // (a) the same snippet included into two (three) sibling elements
+        for n in [2usize, 3] {
+            let names = ["ma", "mb", "mc"];
+            let main: String = names[..n].iter().map(|x| meas(x, &format!("      {}\n", d("attr.a2l")))).collect();
+            let flat: String = names[..n].iter().map(|x| meas(x, snippet)).collect();
+            out.push(Tree { label: format!("one snippet file included into {n} elements ({dir:?})"), class: format!("shared:snippet-x{n}"), files: vec![("main.a2l".into(), format!("{head}{main}{tail}")), (format!("{dir}attr.a2l"), snippet.to_string())], flattened: format!("{head}{flat}{tail}"), includes: n, a2ml_include: false });
+        }
+        // (b) diamond: two element files that both include the same snippet
+        let fa = meas("ma", &format!("      {}\n", inc_directive("attr.a2l", quoted)));
+        let fb = meas("mb", &format!("      {}\n", inc_directive("attr.a2l", quoted)));
+        let main = format!("{head}    {}\n    {}\n{tail}", d("fa.a2l"), d("fb.a2l"));
+        out.push(Tree { label: format!("two include files that both include one snippet ({dir:?})"), class: "shared:diamond".into(), files: vec![("main.a2l".into(), main), (format!("{dir}fa.a2l"), fa), (format!("{dir}fb.a2l"), fb), (format!("{dir}attr.a2l"), snippet.to_string())], flattened: format!("{head}{}{}{tail}", meas("ma", snippet), meas("mb", snippet)), includes: 2, a2ml_include: false });
+        // (c) the snippet directly and, later, through another file
+        let fb2 = meas("mb", &format!("      {}\n", inc_directive("attr.a2l", quoted)));
+        let main = format!("{head}{}    {}\n{tail}", meas("ma", &format!("      {}\n", d("attr.a2l"))), d("fb.a2l"));
+        out.push(Tree { label: format!("a snippet included directly and again through another include file ({dir:?})"), class: "shared:direct+nested".into(), files: vec![("main.a2l".into(), main), (format!("{dir}fb.a2l"), fb2), (format!("{dir}attr.a2l"), snippet.to_string())], flattened: format!("{head}{}{}{tail}", meas("ma", snippet), meas("mb", snippet)), includes: 2, a2ml_include: false });
+    }
+    out
 }
 
 fn a2ml_trees(g: &Grammar) -> Vec<Tree> {
@@ -588,6 +622,7 @@ pub fn build(g: &Grammar, thorough: bool) -> Vec<Tree> {
         }
     }
     out.extend(a2ml_trees(g));
+    out.extend(shared_include_trees());
     out.extend(ifdata_inner_trees(g));
     out
 }
